@@ -24,6 +24,13 @@ RLt(x, y) == x[1] * y[2] < y[1] * x[2]
 RECURSIVE Pow2(_)
 Pow2(k) == IF k = 0 THEN 1 ELSE 2 * Pow2(k - 1)
 
+\* comparisons over the extended values: <<0,0>> is NaN (unordered: every comparison but # is false), <<1,0>> / <<-1,0>> are +inf / -inf
+IsNaN(x) == x[2] = 0 /\ x[1] = 0
+XEq(x, y) == ~IsNaN(x) /\ ~IsNaN(y) /\ x = y
+XLt(x, y) == IF IsNaN(x) \/ IsNaN(y) \/ x = y THEN FALSE
+             ELSE IF x[2] = 0 THEN x[1] < 0                 \* -inf is below everything else, +inf below nothing
+             ELSE IF y[2] = 0 THEN y[1] > 0
+             ELSE RLt(x, y)
 \* value of  x <op> y ; booleans are 0/1 rationals
 B2R(b) == IF b THEN <<1, 1>> ELSE <<0, 1>>
 OpVal(op, x, y) ==
@@ -31,9 +38,9 @@ OpVal(op, x, y) ==
     [] op = "truediv" -> RDiv(x, y) [] op = "floordiv" -> RFloorDiv(x, y)
     [] op = "lshift" -> <<x[1] * Pow2(y[1]), 1>>
     [] op = "and" -> <<x[1] & y[1], 1>> [] op = "or" -> <<x[1] | y[1], 1>>
-    [] op = "eq" -> B2R(x = y) [] op = "ne" -> B2R(x # y)
-    [] op = "lt" -> B2R(RLt(x, y)) [] op = "le" -> B2R(RLt(x, y) \/ x = y)
-    [] op = "gt" -> B2R(RLt(y, x)) [] op = "ge" -> B2R(RLt(y, x) \/ x = y)
+    [] op = "eq" -> B2R(XEq(x, y)) [] op = "ne" -> B2R(~XEq(x, y))
+    [] op = "lt" -> B2R(XLt(x, y)) [] op = "le" -> B2R(XLt(x, y) \/ XEq(x, y))
+    [] op = "gt" -> B2R(XLt(y, x)) [] op = "ge" -> B2R(XLt(y, x) \/ XEq(x, y))
     [] op = "ilshift" -> y                       \* <<= replaces the value
 
 \* ---- fibers (integer values): content of the results ----
